@@ -602,7 +602,14 @@ pub fn run_property(def: &PropertyDef, ctx: &Ctx) -> i32 {
     let mut subs_json = serde_json::Map::new();
     for r in &reports {
         for s in r.samples.iter().take(2) {
-            samples.push(json!({"sub": r.name, "case": s}));
+            // a sample is an illustration, not a replay file: long cases are abbreviated
+            let txt = serde_json::to_string(s).unwrap_or_default();
+            if txt.len() > 6000 {
+                let cut = (0..=3000).rev().find(|i| txt.is_char_boundary(*i)).unwrap_or(0);
+                samples.push(json!({"sub": r.name, "case_abbreviated": format!("{} ... ({} bytes of JSON in total)", &txt[..cut], txt.len())}));
+            } else {
+                samples.push(json!({"sub": r.name, "case": s}));
+            }
         }
         subs_json.insert(
             r.name.clone(),
